@@ -186,6 +186,24 @@ func wildGen(prop string) func(rng *verifsim.RNG, idx int, tier string) *Plan {
 			}
 			p.Actions = append(p.Actions, rsAction(at+int64(rng.Dur(time.Millisecond, time.Second)), hostAddr(rng.Intn(3))))
 		}
+		if prop != "C15" && rng.Bool(0.15) {
+			// Two interfaces listing their addresses at overlapping times: eth0's
+			// dump is stuck in the kernel while eth1 builds an RA of its own. Each
+			// expansion is made from its own interface's listing.
+			secondInterface(rng, p)
+			n = &p.Nodes[0]
+			iw = &n.Ifaces[0]
+			n.Ifaces[1].Addrs = pickAddrs(rng, n.Ifaces[1].LL, 10)
+			t0 := int64(rng.Dur(time.Second, horizon))
+			p.Faults = append(p.Faults, Fault{Seam: "rtnl.addr", If: "eth0", From: t0, Count: 1, Hold: "h2if"})
+			a0, a1 := rsAction(t0+1000, hostAddr(0)), rsAction(t0+600*nsMs, hostAddr(1))
+			a1.If = "eth1"
+			p.Actions = append(p.Actions, a0, a1, Action{At: t0 + 1300*nsMs, Kind: "release", Hold: "h2if"})
+			if p.Horizon < t0+2*nsSec {
+				p.Horizon = t0 + 2*nsSec
+			}
+			return p
+		}
 		maybeReinit(rng, p, iw.Name, 500*nsMs, int64(horizon), 0.2)
 		if rng.Bool(0.2) {
 			// The same stanza objects are expanded by the advertiser, the metrics
